@@ -55,10 +55,13 @@ def c01(ctx):
             for m in mrts_grid(g):
                 cases.append((1, [eff(a), eff(b), Z, ONE, m]))
                 cases.append((50, [False, m, T(a), T(b)]))
+                if m != Z:
+                    cases.append((50, [True, m, T(a), T(b)]))      # default Reconcile: keywords must survive it
         ctx.corr(cases, pair_nt)
         # oracle: implementation vs the executable Coq specification isi_spec
-        spec_vs_impl(ctx, [(100, [a, b, Z, ONE, m], 50, [False, m, T(a), T(b)])
-                           for a, b in pairs for m in mrts_grid(g)[:3]], "isi_profile == isi_spec")
+        spec_vs_impl(ctx, [(100, [a, b, Z, ONE, m], 50, [rc, m, T(a), T(b)])
+                           for a, b in pairs for m in mrts_grid(g)[:3] for rc in ((False, True) if m != Z else (False,))],
+                     "isi_profile == isi_spec")
     # shifted / scaled interval so that t_start != 0
     cases = []
     rnd, g = ctx.space.random_pairs(n=300)
@@ -108,6 +111,7 @@ def c02(ctx):
                 for ri in (False, True):
                     cases.append((2, [eff(a), eff(b), Z, ONE, m, ri]))
             cases.append((51, [False, Fr(2, g), False, T(a), T(b)]))
+            cases.append((51, [True, Fr(4, g), True, T(a), T(b)]))     # default Reconcile, MRTS and RI must survive it
         ctx.corr(cases, pair_nt)
         spec_vs_impl(ctx, [(101, [a, b, Z, ONE, m, ri], 51, [False, m, ri, T(a), T(b)])
                            for a, b in pairs for m in mrts_grid(g)[:2] for ri in (False, True)],
@@ -159,18 +163,34 @@ def sync_cases(pairs, g, rids, cy_only=()):
     return cases
 
 
+
+def big_tau_pairs(ctx):
+    """all ordered pairs of trains with <= 2 spikes on the 9-point grid, for coincidence windows
+    larger than half the recording (max_tau in {3/4, 1, 2}): the window is then limited by the
+    recording length and by missing neighbours only"""
+    tr = gen.grid_trains(2, 8)
+    pairs = ctx.part([(a, b) for a in tr for b in tr])
+    return [(a, b, mt, m) for a, b in pairs for mt in (Fr(3, 4), Fr(1), Fr(2)) for m in (Fr(0), Fr(1, 4))]
+
+
 @prop("C03")
 def c03(ctx):
     for pairs, g in pairs_for(ctx):
         ctx.corr(sync_cases(pairs, g, (6, 7)), pair_nt)
-        ctx.corr([(52, [False, mt, m, T(a), T(b)]) for a, b in pairs
-                  for m in mrts_grid(g)[:2] for mt in maxtau_grid(g)[:2]], pair_nt)
+        ctx.corr([(52, [rc, mt, m, T(a), T(b)]) for a, b in pairs
+                  for m in mrts_grid(g)[:2] for mt in maxtau_grid(g)[:2] for rc in (False, True)], pair_nt)
         spec_vs_impl(ctx, [(102, [a, b, Z, ONE, mt, m], 6, [a, b, Z, ONE, mt, m])
                            for a, b in pairs for m in mrts_grid(g)[:3] for mt in maxtau_grid(g)],
                      "coincidence profile == pairwise definition")
         spec_vs_impl(ctx, [(103, [a, b, Z, ONE, mt, m], 7, [a, b, Z, ONE, mt, m])
                            for a, b in pairs for m in mrts_grid(g)[:3] for mt in maxtau_grid(g)[:2]],
                      "per-spike indicator == pairwise definition")
+    big = big_tau_pairs(ctx)
+    ctx.corr([(rid, [a, b, Z, ONE, mt, m]) for a, b, mt, m in big for rid in (6, 7)], pair_nt)
+    spec_vs_impl(ctx, [(102, [a, b, Z, ONE, mt, m], 6, [a, b, Z, ONE, mt, m]) for a, b, mt, m in big],
+                 "coincidence profile == pairwise definition (max_tau above half the recording)")
+    spec_vs_impl(ctx, [(103, [a, b, Z, ONE, mt, m], 7, [a, b, Z, ONE, mt, m]) for a, b, mt, m in big],
+                 "per-spike indicator == pairwise definition (max_tau above half the recording)")
     # get_tau on contexts
     r = ctx.rng
     cases = []
@@ -206,8 +226,10 @@ def c03(ctx):
 def c04(ctx):
     for pairs, g in pairs_for(ctx):
         ctx.corr(sync_cases(pairs, g, (8, 9)), pair_nt)
-        ctx.corr([(rid, [False, nrm, mt, m, T(a), T(b)]) for a, b in pairs for rid in (71, 74)
-                  for nrm in (True, False) for m in mrts_grid(g)[:2] for mt in maxtau_grid(g)[:2]], pair_nt)
+        ctx.corr([(rid, [rc, nrm, mt, m, T(a), T(b)]) for a, b in pairs for rid in (71, 74)
+                  for nrm in (True, False) for m in mrts_grid(g)[:2] for mt in maxtau_grid(g)[:2]
+                  for rc in ((False, True) if (m != Z and mt != Z) else (False,))], pair_nt)
+        ctx.corr([(53, [True, mt, m, T(a), T(b)]) for a, b in pairs for m in mrts_grid(g)[1:2] for mt in maxtau_grid(g)[1:2]], pair_nt)
         spec_vs_impl(ctx, [(104, [a, b, Z, ONE, mt, m], 8, [a, b, Z, ONE, mt, m])
                            for a, b in pairs for m in mrts_grid(g)[:3] for mt in maxtau_grid(g)],
                      "order profile == leader/follower definition")
@@ -740,6 +762,20 @@ def c08(ctx):
                 if not ok:
                     ctx.violate("mirror relation fails for %s" % key, str(rid), a2, expected=v0, got=v, rid=rid,
                                 base_args=core.enc(args))
+    # correspondence of the kernels on shifted / scaled recordings (t_start != 0, length != 1)
+    cases = []
+    rnd, g = ctx.space.random_pairs(n=400 if ctx.tier == "quick" else 5000)
+    for a, b in ctx.part(rnd):
+        c = Fr(r.choice([-8, -3, 5, 32]), r.choice([1, 4]))
+        k = Fr(r.choice([2, 4, 8]), r.choice([1, 16]))
+        f = lambda x: x * k + c
+        A, B = [f(x) for x in a], [f(x) for x in b]
+        ts, te = f(Z), f(ONE)
+        m = r.choice(mrts_grid(g)[:3]) * k
+        mt = r.choice(maxtau_grid(g)) * k
+        cases += [(1, [eff(A, ts, te), eff(B, ts, te), ts, te, m]), (2, [eff(A, ts, te), eff(B, ts, te), ts, te, m, r.random() < 0.5])]
+        cases += [(rid, [A, B, ts, te, mt, m]) for rid in (6, 7, 8, 9)]
+    ctx.corr(cases, pair_nt, functional=True)
     # isi_lengths / auto threshold scale with time
     for _ in range(ctx.n(300 if ctx.tier == "quick" else 3000)):
         t = gen.rand_train(r, 5, 16)
@@ -753,10 +789,10 @@ def c08(ctx):
 
 # ---------------------------------------------------------------------------
 def all_bp_pairs(ctx):
-    maxn, g = (3, 6) if ctx.tier == "quick" else (4, 8)
+    maxn, g = (3, 8) if ctx.tier == "quick" else (4, 8)
     sets = gen.all_interleavings_pwc(maxn, g)
     pairs = ctx.part([(a, b) for a in sets for b in sets])
-    lim = ctx.n(1800 if ctx.tier == "quick" else 30000)
+    lim = ctx.n(4096 if ctx.tier == "quick" else 30000)
     if len(pairs) > lim:
         pairs = ctx.rng.sample(pairs, lim)
         ctx.bump("breakpoint_set_pairs_sampled", len(pairs))
@@ -929,6 +965,34 @@ def c09(ctx):
             ctx.violate("history raises %s: %s" % (type(e).__name__, e), kind + " history", repr(ops),
                         base=core.enc([list(e_) for e_ in exact]))
     ctx.corr_values("history", 94, [([b, o_], [iv, []], None) for b, o_, iv in hist_items], functional=True)
+    # functions given with Python-int breakpoints / values (lists of ints are a natural way to write
+    # them): the sum with an operand that has non-integer breakpoints must still be the pointwise sum
+    for _ in range(ctx.n(120 if ctx.tier == "quick" else 1500)):
+        xi = [0] + sorted(r.sample(range(1, 8), r.randint(0, 3))) + [8]
+        xf = [Fr(0)] + sorted(set(Fr(r.randint(1, 31), 4) for _ in range(r.randint(1, 3)))) + [Fr(8)]
+        for kind in ("pwc", "pwl"):
+            nI, nF = len(xi) - 1, len(xf) - 1
+            if kind == "pwc":
+                fI = (xi, [r.randint(-2, 3) for _ in range(nI)])
+                fF = (xf, vals(r, nF))
+                cls, lim, integ = ps.PieceWiseConstFunc, lim_pwc, int_pwc
+            else:
+                fI = (xi, [r.randint(-2, 3) for _ in range(nI)], [r.randint(-2, 3) for _ in range(nI)])
+                fF = (xf, vals(r, nF), vals(r, nF))
+                cls, lim, integ = ps.PieceWiseLinFunc, lim_pwl, int_pwl
+            for recv_int in (True, False):
+                A, B = (fI, fF) if recv_int else (fF, fI)
+                def mkobj(fn_):
+                    if fn_ is fI:
+                        return cls(*[list(a) for a in fn_])                       # python ints
+                    return cls(*[np.array(core.fl(a), dtype=float) for a in fn_])
+                oa, ob = mkobj(A), mkobj(B)
+                res = core.call_impl(lambda: (oa.add(ob), oa)[1])
+                ctx.check()
+                ex = lambda fn_: tuple([Fr(v) for v in a] for a in fn_)
+                check_sum(ctx, kind + " (integer-typed operand)", ex(A), ex(B), res, lim, integ,
+                          [[list(map(Fr, a)) for a in A], [list(map(Fr, a)) for a in B]])
+            ctx.nontrivial(("c09int", kind, core.enc([list(map(Fr, a)) for a in fI]), core.enc([list(a) for a in fF])))
     # order independence: a+b+c in all orders
     for _ in range(ctx.n(150 if ctx.tier == "quick" else 2000)):
         fs = [gen.rand_pwl(r, 3, 8) for _ in range(3)]
@@ -1411,6 +1475,21 @@ def c14(ctx):
             if not feq(sub, sid):
                 ctx.violate("matrix: indices selection != sub-list", name,
                             [name, L, [Nat(x) for x in sel], m, mt, ri, iv], expected=sub, got=sid)
+            # the matrix form and the two-train form must honour the keywords identically
+            bi = {"isi_distance_matrix": ps.isi_distance, "spike_distance_matrix": ps.spike_distance,
+                  "spike_sync_matrix": ps.spike_sync, "spike_directionality_matrix": ps.spike_directionality}[name]
+            if not isinstance(sid, core.Err) and len(sel) >= 2:
+                a_, b_ = 0, 1
+                kwb = dict(kw)
+                if name == "spike_directionality_matrix":
+                    kwb["normalize"] = True
+                d = core.call_impl(lambda: q(lambda: bi(sts[sel[a_]], sts[sel[b_]], **kwb)))
+                mm = core.call_impl(lambda: q(lambda: fn(sts, indices=list(sel), **kwb)))
+                ctx.check()
+                if isinstance(mm, core.Err) or not feq(mm[a_][b_], d):
+                    ctx.violate("matrix entry != two-train call with the same keywords", name,
+                                [name, L, [Nat(x) for x in sel], m, mt, ri, iv], expected=d,
+                                got=None if isinstance(mm, core.Err) else mm[a_][b_])
         # MRTS='auto' through index selections
         for name, fn in (("isi_distance", ps.isi_distance), ("spike_sync", ps.spike_sync)):
             sub = core.call_impl(lambda: fn([sts[x] for x in sel], MRTS='auto'))
@@ -1638,6 +1717,24 @@ def c16(ctx):
             if prev is not None and not isinstance(p0, core.Err) and any(y2 < y1 - 1e-12 for y1, y2 in zip(prev[1], p0[1])):
                 ctx.violate("max_tau=0 (no bound) has fewer coincidences than a bounded run", "coincidence_profile",
                             [a, b, Z, ONE, mts, m], expected=prev, got=p0, rid=6)
+    big = big_tau_pairs(ctx)
+    ctx.corr([(rid, [a, b, Z, ONE, mt, m]) for a, b, mt, m in big for rid in (6, 7, 8, 9)], pair_nt)
+    for a, b, mt, m in big:
+        # enlarging max_tau never removes a coincidence, also beyond the recording length
+        if mt == Fr(3, 4):
+            ps_ = [ctx.call(6, [a, b, Z, ONE, t_, m]) for t_ in (Fr(3, 4), Fr(1), Fr(2), Z)]
+            cs_ = [ctx.call(7, [a, b, Z, ONE, t_, m]) for t_ in (Fr(3, 4), Fr(1), Fr(2), Z)]
+            ctx.check(2)
+            for p1, p2 in zip(ps_, ps_[1:]):
+                if isinstance(p1, core.Err) or isinstance(p2, core.Err) or any(y2 < y1 - 1e-12 for y1, y2 in zip(p1[1], p2[1])):
+                    ctx.violate("enlarging max_tau (beyond half the recording) removes a coincidence", "coincidence_profile",
+                                [a, b, Z, ONE, Fr(3, 4), m], expected=p1, got=p2, rid=6)
+                    break
+            for c1, c2 in zip(cs_, cs_[1:]):
+                if isinstance(c1, core.Err) or isinstance(c2, core.Err) or any(y2 < y1 - 1e-12 for y1, y2 in zip(c1, c2)):
+                    ctx.violate("enlarging max_tau (beyond half the recording) removes a per-spike coincidence",
+                                "coincidence_single", [a, b, Z, ONE, Fr(3, 4), m], expected=c1, got=c2, rid=7)
+                    break
     # None == 0 through the public API; the bound through the public API
     lists, g = ctx.space.random_lists(n=200 if ctx.tier == "quick" else 3000)
     lists = ctx.part(lists)
@@ -1701,17 +1798,19 @@ def c17(ctx):
     cases, quads = [], []
     for L, gg in todo:
         n = len(L)
-        TL = [T(x) for x in L]
+        c0 = r.choice([Z, Z, Fr(-5, 2), Fr(3)])           # recordings that do not start at 0 as well
+        L = [[x + c0 for x in t] for t in L]
+        TL = [T(x, c0, c0 + 1) for x in L]
         m = r.choice(mrts_grid(gg)[:3])
-        mt = r.choice(maxtau_grid(gg))
+        mt = r.choice(maxtau_grid(gg) + [Fr(3, 4), Fr(2)])
         thr = Fr(r.randint(0, n - 1), n - 1) if r.random() < 0.7 else Fr(r.randint(0, 16), 16)
         if sum(len(x) for x in L) >= 3:
             ctx.nontrivial(("c17", core.enc(TL), m, mt, thr))
         cases.append((70, [False, mt, m, thr, TL]))
         quads.append((106, [mt, m, thr, TL], 70, [False, mt, m, thr, TL]))
         for i in range(min(n, 2)):
-            cases.append((7, [L[i], L[(i + 1) % n], Z, ONE, mt, m]))
-            quads.append((103, [L[i], L[(i + 1) % n], Z, ONE, mt, m], 7, [L[i], L[(i + 1) % n], Z, ONE, mt, m]))
+            cases.append((7, [L[i], L[(i + 1) % n], c0, c0 + 1, mt, m]))
+            quads.append((103, [L[i], L[(i + 1) % n], c0, c0 + 1, mt, m], 7, [L[i], L[(i + 1) % n], c0, c0 + 1, mt, m]))
         sts = ctx.impl.trains(TL)
         snap = [(s.spikes.copy(), s.t_start, s.t_end) for s in sts]
         res = core.call_impl(lambda: ps.filter_by_spike_sync(sts, float(thr), max_tau=float(mt), MRTS=float(m),
@@ -1733,7 +1832,7 @@ def c17(ctx):
             k, rm = kept[i], removed[i]
             # partition in the original order on the original interval
             if sorted(k[0] + rm[0]) != [float(x) for x in L[i]] or k[0] != sorted(k[0]) or rm[0] != sorted(rm[0]) \
-                    or k[1:] != [0.0, 1.0] or rm[1:] != [0.0, 1.0] or set(k[0]) & set(rm[0]):
+                    or k[1:] != [float(c0), float(c0 + 1)] or rm[1:] != [float(c0), float(c0 + 1)] or set(k[0]) & set(rm[0]):
                 ctx.violate("kept and removed spikes are not a partition of the input train", "filter_by_spike_sync",
                             [False, mt, m, thr, TL], got=[k, rm], rid=70)
                 break
@@ -1767,6 +1866,13 @@ def c17(ctx):
         if isinstance(k2, core.Err) or any(not set(b_[0]) <= set(a_[0]) for a_, b_ in zip(kept, k2)):
             ctx.violate("a higher threshold keeps a spike the lower one removed", "filter_by_spike_sync",
                         [False, mt, m, [thr, thr2], TL], expected=kept, got=k2)
+    big = big_tau_pairs(ctx)
+    cases += [(7, [a, b, Z, ONE, mt, m]) for a, b, mt, m in big]
+    quads += [(103, [a, b, Z, ONE, mt, m], 7, [a, b, Z, ONE, mt, m]) for a, b, mt, m in big]
+    for a, b, mt, m in big[::3]:
+        TLb = [T(a), T(b), T([Fr(1, 2)])]
+        cases.append((70, [False, mt, m, Z, TLb]))
+        quads.append((106, [mt, m, Z, TLb], 70, [False, mt, m, Z, TLb]))
     ctx.corr(cases, lambda rid, a: True, functional=True)
     spec_vs_impl(ctx, [q for q in quads if q[0] == 106], "filter keeps exactly the spikes with count > thr*(N-1)",
                  proj=lambda v: [[kr[0][0], kr[1][0]] for kr in v])
@@ -1822,9 +1928,10 @@ def c18(ctx):
         ri = r.random() < 0.5
         iv = r.choice([None, (0.25, 0.75), (0.0, 0.5), (0.5, 1.0), (0.125, 0.25)])
         ctx.nontrivial(("c18", core.enc(TL), m, mt, ri, iv))
-        kM = dict(MRTS=float(m))
-        kS = dict(MRTS=float(m), RI=ri)
-        kT = dict(MRTS=float(m), max_tau=float(mt))
+        mv = 'auto' if r.random() < 0.3 else float(m)       # the automatic threshold must be finite as well
+        kM = dict(MRTS=mv)
+        kS = dict(MRTS=mv, RI=ri)
+        kT = dict(MRTS=mv, max_tau=float(mt))
         arg = (sts[0], sts[1]) if n == 2 else (sts,)
         profs = [("isi_profile", ps.isi_profile, kM, "pw"), ("spike_profile", ps.spike_profile, kS, "pw"),
                  ("spike_sync_profile", ps.spike_sync_profile, kT, "df"),
@@ -1835,7 +1942,7 @@ def c18(ctx):
                 ctx.check()
                 bad = wf_profile(p, kind)
                 if bad:
-                    ctx.violate("profile %s" % bad, name, [TL, m, mt, ri], got=p)
+                    ctx.violate("profile %s" % bad, name, [TL, str(mv), mt, ri], got=p)
         scal = [("isi_distance", ps.isi_distance, kM, True), ("spike_distance", ps.spike_distance, kS, True),
                 ("spike_sync", ps.spike_sync, kT, True), ("spike_train_order", ps.spike_train_order, kT, False),
                 ("isi_distance_matrix", ps.isi_distance_matrix, kM, True),
@@ -1859,7 +1966,7 @@ def c18(ctx):
                 v = core.call_impl(lambda: q(lambda: f(*form, **kw)))
                 ctx.check()
                 if isinstance(v, core.Err) or not core.all_finite(v):
-                    ctx.violate("scalar/matrix result raises or is not finite", name, [TL, m, mt, ri, repr(iv)], got=v)
+                    ctx.violate("scalar/matrix result raises or is not finite", name, [TL, str(mv), mt, ri, repr(iv)], got=v)
         if n == 2:
             A, B = TL
             cases += [(50, [False, m, A, B]), (51, [False, m, ri, A, B]), (52, [False, mt, m, A, B]),
